@@ -50,7 +50,7 @@ Space(n) ==
         ELSE IF n = 3 THEN Alts(ValsMid \cup {<<"part0">>, <<"foreign">>, <<"hit", "lib">>}, Lens)
         ELSE Alts(ValsNarrow, {0, 3}))
   ELSE (IF n <= 2 THEN (IF Size = "quick" THEN Alts(RealMid, Lens) ELSE Alts(RealWide, Lens))
-        ELSE Alts(ValsNarrow, {0, 3}))
+        ELSE Alts({<<"miss">>, <<"hit">>, <<"part4">>}, {0, 3}))
 MaxAlts == IF Part = "table" THEN (IF Size = "quick" THEN 3 ELSE 4) ELSE (IF Size = "quick" THEN 2 ELSE 3)
 
 Rest(S, k) == IF k = 0 THEN {<<>>}
@@ -64,7 +64,8 @@ Seeds == UNION {{[kind |-> "seed", n |-> n, first |-> a] : a \in Space(n)} : n \
 Init == c \in Seeds /\ out = "seed"
 OutOf(alts) == [none |-> AllowedOut(alts, NoMsg), some |-> AllowedOut(alts, WrongMsg),
                 code_none |-> CodeOut(alts, NoMsg), code_some |-> CodeOut(alts, WrongMsg),
-                calls |-> Len(CodeCalls(alts))]
+                calls |-> Len(CodeCalls(alts)),
+                hosts |-> IF Part = "table" THEN {"table"} ELSE RealisableHosts(alts)]
 Next == /\ c.kind = "seed"
         /\ c' \in {[kind |-> "case", n |-> c.n, alts |-> <<c.first>> \o r] : r \in Rest(Space(c.n), c.n - 1)}
         /\ out' = OutOf(Concrete(c'.alts))
@@ -85,6 +86,7 @@ LawWrongMsgOnlyFillsI == Both(LawWrongMsgOnlyFills)
 LawMonotoneI == Both(LawMonotone)
 LawDuplicateI == Both(LawDuplicate)
 LawSingleI == Both(LawSingle)
+LawAlwaysRealisableI == IsCase => LawAlwaysRealisable(A, NoMsg)
 LawBoundedI == Both(LawBounded)
 LawFullCreditHitI == Both(LawFullCreditHit)
 LawCreditMonotoneI == IsCase => LawCreditMonotone(A, NoMsg)
